@@ -1,6 +1,7 @@
 package main
 
 import (
+	"sync"
 	"math"
 	blake2bLib "golang.org/x/crypto/blake2b"
 	"fmt"
@@ -152,6 +153,8 @@ func init() {
 	initFmt()
 	initStrBuilder()
 	initStrIntr()
+	initJSON()
+	initPool()
 	// sync/atomic on plain words
 	for _, w := range []struct {
 		n string
@@ -562,3 +565,43 @@ func (in *Interp) lock(o *SyncObj, m lockMode) {
 }
 
 func (in *Interp) unlock(o *SyncObj) { delete(in.held, o) }
+
+// sync.Pool: Get returns the most recently Put object (what the runtime does on one P without a GC in
+// between), else New()
+var poolMu sync.Mutex
+
+func initPool() {
+	intrinsics["(*sync.Pool).Get"] = func(in *Interp, fn *ssa.Function, a []Value) Value {
+		p := in.force(a[0]).(*Value)
+		if in.pools == nil {
+			in.pools = map[*Value][]Value{}
+		}
+		if l := in.pools[p]; len(l) > 0 {
+			x := l[len(l)-1]
+			in.pools[p] = l[:len(l)-1]
+			return x
+		}
+		st := (*p).(Struct)
+		newFn := in.force(st[len(st)-1])
+		switch f := newFn.(type) {
+		case *ssa.Function:
+			if f == nil {
+				return Iface{}
+			}
+		case nil:
+			return Iface{}
+		}
+		return in.call(newFn, nil)
+	}
+	intrinsics["(*sync.Pool).Put"] = func(in *Interp, fn *ssa.Function, a []Value) Value {
+		p := in.force(a[0]).(*Value)
+		if in.pools == nil {
+			in.pools = map[*Value][]Value{}
+		}
+		if x, ok := in.force(a[1]).(Iface); ok && x.T == nil {
+			return nil
+		}
+		in.pools[p] = append(in.pools[p], a[1])
+		return nil
+	}
+}
